@@ -1,4 +1,4 @@
-(* Basic facts about the little-endian encoders and the memory reads of the format decoder. *)
+(* Basic facts about the little-endian encoders (kept for the shared Makefile's file list). *)
 From Flatcc.Format Require Import Schema Spec.
 From Flatcc.Builder Require Import EmitModel.
 From Coq Require Import ZifyBool.
